@@ -22,7 +22,9 @@ from sparse import Image
 
 PROPERTY = "C12"
 RULE = ("gate enumeration on valid generated inputs: exhaustive single-bit flips of each magic/signature (QCOW2 magic 32, VDI "
-        "signature 32, HDS signature 128, VHDX file identifier 64 / active header 32 / both region tables 32+32 / metadata table 64, "
+        "signature 32, HDS signature 128, VHDX file identifier 64 / active header 32 / both region tables 32+32 / metadata table 64; the "
+        "VHDX structures with a redundant copy in the current copy only (other header a valid older copy or zero, either slot order), in "
+        "both copies, and in the non-current header alone (accepted), "
         "VMDK sparse header and footer magic 32+32, Hyper-V header/log/object-table/key-table signatures, envelope magic), "
         "unsupported versions (0,1,4,5,16,2^31,2^32-1 …), cluster_bits 0..8 and 22.., crypt methods, every unknown incompatible "
         "feature bit 5..63, data-file / extended-L2 / zstd flags without support, missing backing argument, missing VHDX regions, "
@@ -112,14 +114,34 @@ def generate(seed, tier):
         l = rx["layers"][0]
         for b in range(64):
             add("vhdx", rx, f"identifier_bit{b}", [["l0", 0, flip(b"vhdxfile", b).hex()]])
-        hoff = (64 << 10) if l["active_header"] == 1 else (128 << 10)
+        hoff = gen_vhdx.header_offsets(l)[0]
         for b in range(32):
             add("vhdx", rx, f"header_bit{b}", [["l0", hoff, flip(b"head", b).hex()]])
+        # structures with a redundant copy (two headers, two region tables): the wrong signature in the *current* copy only (the
+        # other copy valid: an older header with the lower sequence number), in both copies, and - for the headers - in either slot
+        # order; a wrong signature in the non-current header alone is no reason to refuse (that copy is never consulted)
+        import copy
+        for slot in (1, 2):
+            for other in ("valid", "zero"):
+                rh2 = copy.deepcopy(rx)
+                rh2["layers"][0].update({"active_header": slot, "other_header": other})
+                cur, old = gen_vhdx.header_offsets(rh2["layers"][0])
+                for b in (range(32) if other == "valid" else (0, 13, 31)):
+                    add("vhdx", rh2, f"header{slot}_current_{other}_other_bit{b}", [["l0", cur, flip(b"head", b).hex()]])
+                if other == "valid":
+                    for b in range(32):
+                        add("vhdx", rh2, f"header{slot}_both_bit{b}", [["l0", cur, flip(b"head", b).hex()], ["l0", old, flip(b"head", (b * 7 + slot) % 32).hex()]])
+                    add("vhdx", rh2, f"header{slot}_base_ok", [], {"expect_ok": True})
+                    for b in (3, 30):
+                        add("vhdx", rh2, f"header{slot}_older_only_bit{b}", [["l0", old, flip(b"head", b).hex()]], {"expect_ok": True})
         for which, off in (("regi1", 192 << 10), ("regi2", 256 << 10)):
             for b in range(32):
                 add("vhdx", rx, f"{which}_bit{b}", [["l0", off, flip(b"regi", b).hex()]])
+        for b in range(32):
+            add("vhdx", rx, f"regi_both_bit{b}", [["l0", 192 << 10, flip(b"regi", b).hex()], ["l0", 256 << 10, flip(b"regi", (b * 5 + 1) % 32).hex()]])
+        moff = gen_vhdx.layout(l)["meta_off"]
         for b in range(64):
-            add("vhdx", rx, f"metadata_bit{b}", [["l0", 2 << 20, flip(b"metadata", b).hex()]])
+            add("vhdx", rx, f"metadata_bit{b}", [["l0", moff, flip(b"metadata", b).hex()]])
         # missing regions: corrupt the GUID of the region entry in the (used) first region table
         img = gen_vhdx.Truth(rx).layers[0][1]
         rt = img.read_at(192 << 10, 16 + 2 * 32)
@@ -254,7 +276,7 @@ def _img(data: bytes) -> Image:
 def vhdx_locator_offset(r) -> int:
     """file offset of the parent-locator item (its first 16 bytes are the locator type GUID) in the top layer"""
     im = gen_vhdx.Truth(r).layers[-1][1]
-    moff = 2 << 20
+    moff = gen_vhdx.layout(r["layers"][-1])["meta_off"]
     n = struct.unpack("<H", im.read_at(moff + 10, 2))[0]
     for k in range(n):
         ent = im.read_at(moff + 32 + 32 * k, 32)
